@@ -31,10 +31,11 @@ type Base struct {
 // F (by the short name they have in a fingerprint report). They are part of the base: an edit
 // inside one is an edit of the base.
 var PrivateHelpers = map[string][]string{
-	"method":     {"(rec).calc"},
-	"genericlen": {"glen"},
-	"constrecv":  {"(lvl).tag", "(lv2).tag"},
-	"constbound": {"(bw8).scaled", "(bw16).scaled"},
+	"method":      {"(rec).calc"},
+	"genericlen":  {"glen"},
+	"constrecv":   {"(lvl).tag", "(lv2).tag"},
+	"constbound":  {"(bw8).scaled", "(bw16).scaled"},
+	"genericinst": {"isT"},
 }
 
 // ManualEdit is a hand-written behaviour-changing rewrite of a base.
@@ -798,6 +799,91 @@ func glen[M ~map[int]int](m M, n int) int {
 	}
 	c += c
 	return int(c) + b, x`),
+		// explicit instantiations of a generic helper whose type argument does not show in its signature
+		Base{Name: "F", ID: "genericinst", Src: "func F" + sig + " {\n" + `	var e interface{} = a
+	if b > 2 {
+		e = x
+	}
+	if isT[int](e) {
+		return 1, x
+	}
+	return 0, y
+}
+
+func isT[T any](v interface{}) bool {
+	_, ok := v.(T)
+	return ok
+}
+`, Manual: []ManualEdit{{"the helper is instantiated with string instead of int (isT[int](e) -> isT[string](e))", "func F" + sig + " {\n" + `	var e interface{} = a
+	if b > 2 {
+		e = x
+	}
+	if isT[string](e) {
+		return 1, x
+	}
+	return 0, y
+}
+
+func isT[T any](v interface{}) bool {
+	_, ok := v.(T)
+	return ok
+}
+`}}},
+		// a builtin that can panic (unsafe.Slice with a negative length) inside a loop that may not run
+		Base{Name: "F", ID: "unsafeslice", Src: "func F" + sig + " {\n" + `	t := 0
+	var e [4]int
+	q := &e[0]
+	for i := 0; i < b; i++ {
+		r := unsafe.Slice(q, a)
+		t += len(r)
+	}
+	return t, x
+}
+`, Manual: []ManualEdit{{"invalid refactoring: unsafe.Slice (panics for a negative length) moved out of a loop that may run zero times", "func F" + sig + " {\n" + `	t := 0
+	var e [4]int
+	q := &e[0]
+	r := unsafe.Slice(q, a)
+	for i := 0; i < b; i++ {
+		t += len(r)
+	}
+	return t, x
+}
+`}}},
+		// a function literal inside a function literal
+		mk("nestedlit", `	t := 0
+	outer := func(v int) int {
+		inner := func(w int) int {
+			if w > a {
+				return w - a
+			}
+			return w + 1
+		}
+		return inner(v) * 2
+	}
+	t = outer(b) + outer(1)
+	return t, x`),
+		// an array whose length matters
+		Base{Name: "F", ID: "arraylen", Src: "func F" + sig + " {\n" + `	var e [4]int
+	for i := range e {
+		e[i] = a + i
+	}
+	t := 0
+	for _, v := range e {
+		t += v
+	}
+	return t + len(e)*b, x
+}
+`, Manual: []ManualEdit{{"the array is declared with 8 elements instead of 4", "func F" + sig + " {\n" + `	var e [8]int
+	for i := range e {
+		e[i] = a + i
+	}
+	t := 0
+	for _, v := range e {
+		t += v
+	}
+	return t + len(e)*b, x
+}
+`}}},
 		// a literal that the compiler folds into a SMALL constant before the analysis sees it
 		mk("foldedlen", `	n := len("abcd") + a
 	if n > b {
